@@ -34,7 +34,7 @@ use std::{
         atomic::{AtomicU64, Ordering},
         Arc, Mutex,
     },
-    time::{Duration, Instant},
+    time::Duration,
 };
 
 pub const ST_FRESH: u8 = 0;
@@ -552,7 +552,10 @@ pub struct MapBatch {
 }
 
 pub fn batch(base_seed: u64, budget: Duration, threads: usize) -> MapBatch {
-    let t0 = Instant::now();
+    // wall time from the realtime clock: the worker threads move their own monotonic clock forward
+    // (clock.rs) to age map entries, so `Instant` is useless for budgeting there
+    let t0 = std::time::SystemTime::now();
+    let elapsed = move || t0.elapsed().unwrap_or_default();
     let next = Arc::new(AtomicU64::new(0));
     #[derive(Default)]
     struct A {
@@ -572,7 +575,7 @@ pub fn batch(base_seed: u64, budget: Duration, threads: usize) -> MapBatch {
             let next = next.clone();
             let agg = agg.clone();
             s.spawn(move || loop {
-                if t0.elapsed() > budget {
+                if elapsed() > budget {
                     break;
                 }
                 let i = next.fetch_add(1, Ordering::Relaxed);
@@ -610,7 +613,7 @@ pub fn batch(base_seed: u64, budget: Duration, threads: usize) -> MapBatch {
         "unknown_path_secret_variants_outside_token_coverage": {"tried": g.unauth_tried, "accepted_by_map": g.unauth_accepted,
             "note": "report-only: the UnknownPathSecret tag is the stateless-reset token of the credential id; the has-queue-id flag bit and the queue id bytes are not covered by it"},
         "samples": g.samples,
-        "wall_s": t0.elapsed().as_secs_f64(),
+        "wall_s": elapsed().as_secs_f64(),
         "rule": "case = f(seed): packet kind x map state (present fresh / aged past the 10 s eviction guard via interposed clock / absent / replaced by re-handshake / other peer only) x cipher suite x entry point x evict flag x queue id; per case every byte position x 4 xor masks, every truncation length, extensions, foreign tags, cross-kind tags, random bodies, multi-byte mutations; then the genuine packet",
     });
     MapBatch { violations: g.violations, coverage }
